@@ -79,6 +79,7 @@ type c06In struct {
 	DurMs     int `json:",omitempty"` // how long the hostile hosts keep going
 	Hammers   int `json:",omitempty"` // hosts opening and abandoning handshake streams
 	Streamers int `json:",omitempty"` // unregistered hosts opening protocol streams
+	Race      bool `json:",omitempty"` // run in a child built with the race detector
 }
 
 func (in c06In) bytes() []byte {
@@ -868,6 +869,111 @@ func c06RunInChildren(t *testing.T, ins []c06In, slow int) []c06Obs {
 	return out
 }
 
+
+// ---- the stress case under the race detector (thorough tier) ------------------------------------------------
+
+var c06RaceBin string // "" not built yet, "-" unavailable
+
+// c06BuildRace builds this package's test binary once more with -race, from the same overlay and
+// module file the harness used for this run (they sit next to VERIF_OUT).
+func c06BuildRace(t *testing.T) string {
+	if c06RaceBin != "" {
+		return c06RaceBin
+	}
+	c06RaceBin = "-"
+	dir := filepath.Dir(os.Getenv("VERIF_OUT"))
+	ov, mod := filepath.Join(dir, "overlay.json"), filepath.Join(dir, "go.mod")
+	if _, err := os.Stat(ov); err != nil {
+		t.Logf("c06: no overlay next to VERIF_OUT, race run skipped")
+		return c06RaceBin
+	}
+	bin := filepath.Join(dir, fmt.Sprintf("c06_race_%d.test", os.Getpid()))
+	ctx, cancel := context.WithTimeout(context.Background(), 25*time.Minute)
+	defer cancel()
+	cmd := exec.CommandContext(ctx, "go", "test", "-race", "-c", "-overlay", ov, "-modfile", mod, "-vet=off", "-o", bin, ".")
+	if out, err := cmd.CombinedOutput(); err != nil {
+		t.Logf("c06: race build unavailable, race run skipped: %v\n%s", err, c06Short(string(out)))
+		return c06RaceBin
+	}
+	c06RaceBin = bin
+	return bin
+}
+
+// c06RepoRaces returns the data race reports that involve code of this repository (a frame in a
+// package under .../mev-commit/pkg/ whose file is not a test file), one line per report.
+func c06RepoRaces(out string) []string {
+	var res []string
+	for _, blk := range strings.Split(out, "WARNING: DATA RACE")[1:] {
+		if i := strings.Index(blk, "=================="); i >= 0 {
+			blk = blk[:i]
+		}
+		lines := strings.Split(blk, "\n")
+		var frames []string
+		for i := 0; i+1 < len(lines); i++ {
+			fn := strings.TrimSpace(lines[i])
+			file := strings.TrimSpace(lines[i+1])
+			if strings.HasPrefix(fn, "github.com/primevprotocol/mev-commit/pkg/") && strings.Contains(file, ".go:") &&
+				!strings.Contains(file, "_test.go:") {
+				if j := strings.LastIndex(file, "/pkg/"); j >= 0 {
+					file = file[j+1:]
+				}
+				frames = append(frames, fn+" "+strings.Fields(file)[0])
+			}
+		}
+		if len(frames) > 0 {
+			if len(frames) > 3 {
+				frames = frames[:3]
+			}
+			res = append(res, "DATA RACE: "+strings.Join(frames, " <-> "))
+		}
+	}
+	return res
+}
+
+// c06RunRace runs one stress case in a race-detector child. ok = false: the race build is not available.
+func c06RunRace(t *testing.T, in c06In, slow int) (obs c06Obs, ok bool) {
+	bin := c06BuildRace(t)
+	if bin == "-" {
+		return obs, false
+	}
+	dir := filepath.Dir(os.Getenv("VERIF_OUT"))
+	inPath := filepath.Join(dir, fmt.Sprintf("c06_race_%d.in.jsonl", os.Getpid()))
+	resPath := filepath.Join(dir, fmt.Sprintf("c06_race_%d.res.jsonl", os.Getpid()))
+	defer os.Remove(inPath)
+	defer os.Remove(resPath)
+	os.Remove(resPath)
+	b, _ := json.Marshal(in)
+	if err := os.WriteFile(inPath, append(b, '\n'), 0o644); err != nil {
+		return obs, false
+	}
+	ctx, cancel := context.WithTimeout(context.Background(), time.Duration(slow)*10*time.Minute)
+	defer cancel()
+	cmd := exec.CommandContext(ctx, bin, "-test.run", "^TestVerifC06$", "-test.count=1", "-test.timeout=0")
+	cmd.Env = append(os.Environ(), "VERIF_C06_CHILD_IN="+inPath, "VERIF_C06_CHILD_RES="+resPath, "VERIF_C06_CHILD_FROM=0",
+		"VERIF_SLOW="+strconv.Itoa(3*slow), "GORACE=halt_on_error=0")
+	outb, _ := cmd.CombinedOutput()
+	done := false
+	if data, err := os.ReadFile(resPath); err == nil {
+		for _, ln := range strings.Split(string(data), "\n") {
+			var l c06ChildLine
+			if json.Unmarshal([]byte(ln), &l) == nil && l.Obs != nil {
+				obs, done = *l.Obs, true
+			}
+		}
+	}
+	if !done {
+		obs = c06Obs{Panic: true, Note: c06CrashNote(string(outb))}
+	}
+	if races := c06RepoRaces(string(outb)); len(races) > 0 {
+		note := fmt.Sprintf("%d race reports in repository code; %s", len(races), races[0])
+		if len(note) > 500 {
+			note = note[:500]
+		}
+		obs = c06Obs{Panic: true, Note: note}
+	}
+	return obs, true
+}
+
 // ---- generators ---------------------------------------------------------------------------------------------------------
 
 func c06Junk(r *rand.Rand, n int) []byte { b := make([]byte, n); r.Read(b); return b }
@@ -1041,6 +1147,9 @@ func TestVerifC06(t *testing.T) {
 		if c06Shared != nil {
 			_ = c06Shared.Close()
 		}
+		if c06RaceBin != "" && c06RaceBin != "-" {
+			os.Remove(c06RaceBin)
+		}
 	}()
 	emit := func(class string, in c06In, obs c06Obs, inp string) {
 		o := "OPanic"
@@ -1056,7 +1165,13 @@ func TestVerifC06(t *testing.T) {
 	var children []pending
 	run := func(class string, in c06In) {
 		if strings.HasPrefix(in.Entry, "e2e-") {
-			if in.Entry == "e2e-stress" {
+			if in.Entry == "e2e-stress" && in.Race {
+				if in.DurMs > 0 && in.DurMs <= 120000 && in.Hammers >= 0 && in.Hammers <= 16 && in.Streamers >= 0 && in.Streamers <= 16 {
+					if obs, ok := c06RunRace(t, in, e.Slow); ok {
+						emit(class, in, obs, c06CoqE2E(in))
+					}
+				}
+			} else if in.Entry == "e2e-stress" {
 				if in.DurMs > 0 && in.DurMs <= 120000 && in.Hammers >= 0 && in.Hammers <= 16 && in.Streamers >= 0 && in.Streamers <= 16 {
 					children = append(children, pending{class, in})
 				}
@@ -1135,4 +1250,7 @@ func TestVerifC06(t *testing.T) {
 		run("e2e-stress", c06In{Pkg: c06Pkg, Entry: "e2e-stress", Registry: k%2 == 0, Seed: r.Int63(), DurMs: dur, Hammers: 3, Streamers: 3})
 	}
 	flush()
+	if full { // the same workload once under the race detector: a report in repository code counts as a crash
+		run("e2e-stress-race", c06In{Pkg: c06Pkg, Entry: "e2e-stress", Registry: true, Seed: r.Int63(), DurMs: 5000, Hammers: 3, Streamers: 3, Race: true})
+	}
 }
